@@ -41,7 +41,7 @@ MANIFEST = dict(
           "multiply returns the dense product and transpose_multiply the transposed dense product of the matrix of stored entries "
           "(sp_mul_spec, sp_tmul_spec: the scatter and gather loops characterised as sums over the stored entries), "
           "<y, A x> = <A^T y, x> (sp_adjoint), scaling scales the product (sp_scale_mul) and multiplying by the explicit transpose equals "
-          "the transposed product (sp_transpose_mul); for duplicate-free storage the abstract entries are the entries of to_dense "
+          "the transposed product (sp_transpose_mul); both products are linear maps of the vector through the library's own guarded vector operations: additive, subtractive, homogeneous, zero to zero (sp_mul_add, sp_mul_sub, sp_mul_scale_vec, sp_mul_zero, sp_tmul_add, sp_tmul_scale_vec, sp_tmul_zero); for duplicate-free storage the abstract entries are the entries of to_dense "
           "(to_dense_entry).  The model is run against the implementation (Rat vs Qc exact) on every shape up to "
           "10 x 10 with random duplicate-free patterns, empty rows/columns, the empty matrix and vectors that are not all-ones, and on structured families: named patterns on every shape class, "
           "special value classes of entries, vectors (all zero, all ones, constant, unit vectors, ...) and scale factors (0, 1, -1, 2, 1/2), and the products of the matrix left behind by a history of "
